@@ -148,13 +148,36 @@ def lex_run(name, defs, tier, seed, cfgs, maxlen, nchars, tlc_workers=8, livenes
     rng = random.Random(seed + 7)
     tla_defs = [json.loads(l) for l in open(defs_path)]
     char_bytes = {}
+    by_id = {m["id"]: m for m in metas}
     for td, m in zip(tla_defs, metas):
+        td["twin"] = 0
         if td["accepted"] and td["hasGraph"] and td["refsOk"]:
             cs = choose_chars(td, m, nchars, rng)
             td["chars"] = [c[0] for c in cs]
             char_bytes[td["idx"]] = [c[1] for c in cs]
         else:
             td["chars"] = []
+    # C12 twins: the byte-mode twin of a str definition uses the same characters
+    for td, m in zip(tla_defs, metas):
+        tw = [t for t in m["tags"] if t.startswith("twin:")]
+        if not tw:
+            continue
+        o = by_id.get(tw[0][5:])
+        if o is None:
+            continue
+        otd = tla_defs[o["idx"] - 1]
+        if not (td["chars"] and otd["chars"]):
+            continue
+        b2b = {}
+        for bi, ranges in enumerate(m["blocks"]):
+            for lo, hi in ranges:
+                for b in range(lo, hi + 1):
+                    b2b[b] = bi + 1
+        cb = char_bytes[otd["idx"]]
+        char_bytes[td["idx"]] = cb
+        td["chars"] = [[b2b[x] for x in c] for c in cb]
+        td["twin"] = otd["idx"]
+        otd["twin"] = td["idx"]
     blob = "\n".join(json.dumps(td) for td in tla_defs) + "\n"
     key = sha(blob, harness_hash(), tier, str(seed), ",".join(cfgs), str(maxlen))[:16]
     cache = os.path.join(workdir(), "lex-%s-%s.json" % (name, key))
@@ -201,14 +224,19 @@ def lex_run(name, defs, tier, seed, cfgs, maxlen, nchars, tlc_workers=8, livenes
                              {"d": run["d"], "mode": "chunked", "data": hexd, "splits": ks, "exp": exp_items(m, run["items"])}))
     log("[lex:%s] %d replay requests x %d configurations" % (name, len(requests), len(cfgs)))
     findings = []
+    last_replies = []
     lines = [r[0] for r in requests]
     for c in cfgs:
         replies = run_subject(bins[c], lines, timeout=1800)
         if len(replies) != len(lines):
             raise ToolError("subject %s returned %d replies for %d requests" % (c, len(replies), len(lines)))
+        last_replies = replies
         for (line, info), rep in zip(requests, replies):
             m = meta_by_idx[info["d"]]
             real = real_items(rep)
+            if rep.get("badslice"):
+                findings.append({"def": m["id"], "cfg": c, "kind": "badslice", "mode": info["mode"], "input": info["data"], "splits": info.get("splits"),
+                                 "expected": "slice()==source[span()] and remainder()==source[span().end..]", "got": rep, "why": "accessor mismatch", "src": m["src"]})
             if real is None:
                 findings.append({"def": m["id"], "cfg": c, "kind": "crash", "mode": info["mode"], "input": info["data"], "splits": info.get("splits"),
                                  "expected": info["exp"], "got": rep, "why": "crash", "src": m["src"]})
@@ -225,7 +253,35 @@ def lex_run(name, defs, tier, seed, cfgs, maxlen, nchars, tlc_workers=8, livenes
     samples = []
     for (line, info) in requests[:: max(1, len(requests) // 6)][:6]:
         samples.append({"def": meta_by_idx[info["d"]]["id"], "mode": info["mode"], "input_hex": info["data"], "splits": info.get("splits"), "expected": info["exp"]})
-    out = {"name": name, "tier": tier, "seed": seed, "cfgs": cfgs, "maxlen": maxlen, "nchars": nchars,
+    extra = {}
+    if any(td["twin"] for td in tla_defs):
+        r2 = run_tlc("Modes.tla", "Modes.cfg", {"DEFS": lex_defs, "MAXLEN": str(maxlen)}, workers=tlc_workers, metaname="modes-" + name, xss="512m")
+        extra["modes"] = {k: r2[k] for k in ("states", "distinct", "depth", "wall", "ok")}
+        extra["modes_out"] = "" if r2["ok"] else r2["out"][-3000:]
+        # real str output vs real byte-mode output of the twin, same bytes
+        by_req = {}
+        for (line, info), rep in zip(requests, last_replies):
+            if info["mode"] == "full":
+                by_req[(info["d"], info["data"])] = rep
+        ndiff = 0
+        ncmp = 0
+        for td in tla_defs:
+            if td["mode"] == "str" and td["twin"]:
+                for (dd, data), rep in by_req.items():
+                    if dd != td["idx"]:
+                        continue
+                    other = by_req.get((td["twin"], data))
+                    if other is None or "items" not in rep or "items" not in other:
+                        continue
+                    ncmp += 1
+                    oks = lambda r: [tuple(it[:4]) for it in r["items"] if it[0] == "ok"]
+                    errb = lambda r: sorted({b for it in r["items"] if it[0] == "err" for b in range(it[2], it[3])})
+                    if oks(rep) != oks(other) or errb(rep) != errb(other):
+                        ndiff += 1
+                        findings.append({"def": meta_by_idx[dd]["id"], "cfg": cfgs[-1], "kind": "mode_diff", "mode": "full", "input": data,
+                                         "expected": rep["items"], "got": other["items"], "why": "str mode and utf8=false disagree", "src": meta_by_idx[dd]["src"]})
+        extra["mode_pairs_compared"] = ncmp
+    out = {"name": name, "tier": tier, "seed": seed, "cfgs": cfgs, "maxlen": maxlen, "nchars": nchars, "extra": extra,
            "tlc": {k: res[k] for k in ("states", "distinct", "depth", "wall")},
            "behaviours": len(runs), "requests": len(requests), "runs": len(requests) * len(cfgs),
            "defs": len(metas), "explored": len({r["d"] for r in runs}),
